@@ -110,6 +110,9 @@ type faultObs struct {
 	afterRef *core.Result
 }
 
+// storeCtxAll makes every case of enumerateFaults run over a context-honouring storage.
+var storeCtxAll bool
+
 var afterCase = core.Case{Q: `sum by (l) (b)`, W: core.Range(10000, 30000, 3), O: core.Opts{Optimizers: "none"}}
 
 func runFault(cs *core.Case, f mstore.Fault) faultObs {
@@ -160,7 +163,7 @@ func enumerateFaults(c *check.Ctx, prop, sub string, kinds map[string]bool, acti
 	c.Rep.Bounds[sub+":actions"] = actions
 	for _, v := range vs {
 		for _, w := range windows {
-			cs := &core.Case{Q: v.q, Data: data, W: w, O: core.Opts{Optimizers: "none"}, Note: sub}
+			cs := &core.Case{Q: v.q, Data: data, W: w, O: core.Opts{Optimizers: "none"}, Note: sub, StoreCtx: storeCtxAll}
 			if v.ndist > 0 {
 				cs.NDist = v.ndist
 				cs.Dist = []int{0, 1, 0, 1, 0, 1, 0, 1}
@@ -368,6 +371,7 @@ func init() {
 	check.Replayers["enum:C15/fault"] = faultReplayer(c15Oracle)
 	check.Replayers["enum:C17/fault"] = faultReplayer(c17Oracle)
 	check.Replayers["enum:C14/cancel"] = faultReplayer(c14EnumOracle)
+	check.Replayers["enum:C14/cancel+storectx"] = faultReplayer(c14EnumOracle)
 
 	windows := []core.Window{core.Range(10000, 30000, 12), core.Instant(45000), core.Range(0, 45000, 3)}
 
@@ -384,6 +388,10 @@ func init() {
 	})
 	check.Register("C14/cancel", func(c *check.Ctx) {
 		enumerateFaults(c, "C14", "C14/cancel", allKinds, []string{"cancel", "block"}, c14EnumOracle, windows, true)
+		// once more over a storage that honours the cancelled context in every callback
+		storeCtxAll = true
+		defer func() { storeCtxAll = false }()
+		enumerateFaults(c, "C14", "C14/cancel+storectx", allKinds, []string{"cancel", "block"}, c14EnumOracle, windows[:2], false)
 	})
 	check.Register("C13/params", c13Params)
 }
